@@ -59,6 +59,10 @@ claimed = {
    text="1-2 raw reference peers per server kind/mode (all seven, chosen by run index) send batches enumerated from the same field x JSON-type lattice as C06, garbage inputs, and requests whose handlers succeed, fail with a message, return (nil,nil), return a value json.Marshal rejects, or return every content kind; their frames share streams (legacy SSE, stdio) and interleave under the scheduler. Every frame a server emits is parsed by an independent validator written from the JSON-RPC 2.0 / MCP 2025-03-26 schema over generic JSON (no library types): version, id JSON-identical to the request's, exactly one of result/error, integer code, string message, result shape per method (content arrays and item kinds, prompt messages and roles, resource contents, tool descriptors, initialize result), no unknown envelope members; a request must get exactly one answer or a non-2xx status (never an empty 2xx); unknown method -> -32601, missing/ill-typed required parameters -> -32602, unparsable -> -32700/-32600 or 4xx, handler error or unencodable result -> -32603 carrying the message.",
    note="The validator is hand-written in Go from the schema (python jsonschema named in the property's anchors is not used so that the check stays inside one simulated run). Inputs a lenient server may serve or refuse (odd id types, missing jsonrpc member, string name of an unregistered entry) are only checked for well-formed output.",
    tech=TECH+"independent schema validator over every emitted frame; enumerated input lattice and handler outcomes"),
+ "C07": dict(cat="exploration", ref="DESIGN.md §6 C07",
+   text="A scripted adversarial server (harness code speaking the protocol correctly except where told otherwise) faces each client kind - Streamable with JSON answers, with SSE answers, its GET stream, the legacy SSE client, the stdio client (variant by run index). The first garbage item is enumerated from a 24-item catalogue (raw bytes, non-JSON, scalars, frames of the wrong kind, unknown ids, ids of type object/float/string/null, missing jsonrpc, result+error, blank lines, comments, unknown event types, 64 KiB-1 / 64 KiB+ / 1 MiB frames, a second endpoint event, truncated JSON, deep nesting, BOM, CRLF), 0-2 more are drawn; the tape picks whether they come before, instead of or after the valid answer of one call and whether they also go to the background channel, while another call is pending. Oracle: no panic in any client goroutine, no spinning goroutine (livelock detector: a library task taking 3000 consecutive steps at <=6 sites without simulated time passing), the affected call returns (error or its answer), the pending call and two later calls return their own answers, a well-formed notification sent afterwards reaches its handler exactly once, Close returns.",
+   note="A response whose id differs only in JSON type from a pending request's id may be taken for its answer (leniency, not a survival question).",
+   tech=TECH+"scripted adversarial server, panic/livelock/liveness oracle"),
 }
 NA = {
  "C18": "pure relation between two translators (schema generator vs encoding/json) over types and values: no schedule, clock, fault or interleaving for a simulator to decide (DESIGN.md §7)",
